@@ -28,7 +28,7 @@ Section M.
   Lemma item_ok_mono S S' c : incl S S' -> item_ok G w S c = true -> item_ok G w S' c = true.
   Proof.
     intros I. destruct c as [[A i] j]. unfold item_ok. rewrite !existsb_exists. intros [p [Hp E]]. exists p. split; [exact Hp|].
-    apply andb_true_iff in E. destruct E as [E1 E2]. rewrite E1. cbn [andb]. apply mem_In. apply mem_In in E2.
+    apply land_true_iff in E. destruct E as [E1 E2]. rewrite E1. apply mem_In. apply mem_In in E2.
     eapply spans_mono; eauto.
   Qed.
 
@@ -65,7 +65,7 @@ Section M.
     intros Hit. apply saturate_sound in Hit. revert it Hit.
     apply (Gen_least (item_cands G w) (item_ok G w) good). intros S [[A i] j] HS Hc Ho.
     unfold item_ok in Ho. apply existsb_exists in Ho. destruct Ho as [[A' body] [Hp E]]. cbn [fst snd] in E.
-    apply andb_true_iff in E. destruct E as [E1 E2]. apply (proj1 (eqb_eq _ _)) in E1. subst A'. apply mem_In in E2.
+    apply land_true_iff in E. destruct E as [E1 E2]. apply (proj1 (eqb_eq _ _)) in E1. subst A'. apply mem_In in E2.
     assert (Li : i <= length w).
     { unfold item_cands in Hc. apply in_flat_map in Hc. destruct Hc as [A0 [_ Hc]]. apply in_flat_map in Hc.
       destruct Hc as [i0 [Hi0 Hc]]. apply in_map_iff in Hc. destruct Hc as [j0 [E _]]. inversion E; subst.
@@ -96,7 +96,7 @@ Section M.
     - intros A body u Hp D IH pre post Ew. apply saturate_closed.
       + apply in_cands with body; [exact Hp| |]; rewrite Ew, !app_length; lia.
       + unfold item_ok. apply existsb_exists. exists (A, body). split; [exact Hp|]. cbn [fst snd].
-        rewrite eqb_refl. cbn [andb]. apply mem_In. now apply IH with post.
+        rewrite eqb_refl. apply mem_In. now apply IH with post.
     - intros pre post Ew. cbn [spans length]. left. lia.
     - intros X rest u v DX IHX DL IHL pre post Ew. destruct X as [B|a]; cbn [spans].
       + apply in_flat_map. exists (B, length pre, length pre + length u). split.
